@@ -68,6 +68,7 @@ def run_case(case):
     try:
         time.sleep(0.15)
         step_no = 0
+        flooding = False
         if (rx is not RX or case.get("scale") is not None) and not s.alive() and s.p.proc.returncode == 2 and "error:" in (s.stderr() + bytes(s.p.out).decode(errors="replace")):
             return fails  # the value was refused with a usage error: allowed
 
@@ -117,6 +118,33 @@ def run_case(case):
                     if s.srv.conn is not None:
                         s.send(NOISE[st[1] % len(NOISE)])
                     time.sleep(0.08)
+                elif k == "flood":
+                    # from here on the feed never pauses: lines that are not frames (another
+                    # protocol on the port, all-zero frames, noise), or frames, one every 4 ms
+                    if s.srv.conn is not None and not flooding:
+                        flooding = True
+                        kinds = [
+                            [b"MSG,3,1,1,4840D6,1,2026/10/03,10:00:00.000,2026/10/03,10:00:00.000,,37000,,,52.1,4.2,,,0,0,0,0\r\n"],
+                            [b"*00000000000000;\n"],
+                            [b"*zz11zz11zz11zz;\n", b"\n", b"*;\n", b"@0123456789ab8d4840d6202cc371c32ce0576098;\n"],
+                            [F.line(f) for f in traffic(3, 1, 1)],
+                        ]
+                        s.srv.flood(kinds[st[1] % len(kinds)])
+                    time.sleep(0.3)
+                elif k == "bounce":
+                    # the server drops the connection and takes radar back at once; with
+                    # --retry-tcp the session goes on over the new connection, which may stay quiet
+                    if "--retry-tcp" in opts and s.srv.conn is not None and not flooding:
+                        s.srv.drop(reset=bool(st[1] % 2))
+                        if not s.srv.accept(12.0):
+                            if check(f"{step_no} (reconnect)"):
+                                raise Inconclusive("radar --retry-tcp did not reconnect within 12 s")
+                            return fails
+                        time.sleep(0.3)
+                        if st[1] >= 2:
+                            for f in traffic(2, 1, step_no):
+                                s.send(F.line(f))
+                            time.sleep(0.1)
                 elif k == "crowd":
                     # many aircraft at once (more than any table or map cell holds), all positioned
                     if s.srv.conn is not None:
@@ -273,6 +301,10 @@ def classify(case):
         cls.append("mouse")
     if "noise" in kinds:
         cls.append("traffic that is not a frame")
+    if "flood" in kinds:
+        cls.append("feed that never pauses")
+    if "bounce" in kinds and "--retry-tcp" in [FLAGS[i % len(FLAGS)] for i in case["flags"]]:
+        cls.append("reconnected feed")
     if case.get("no_server"):
         cls.append("quit while waiting for connection")
     if "server_drop" in kinds and "--retry-tcp" in [FLAGS[i % len(FLAGS)] for i in case["flags"]]:
@@ -292,6 +324,14 @@ def burst_cases():
     for tab in range(5):
         out.append(dict(base, steps=[["key", tab]] + pairs + [["paste", [tab, k]] for k in NAV]))
     out.append(dict(base, steps=[["feed", 3, 1], ["key", 2]] + pairs))
+    # a feed that never pauses (each kind), then keys, a resize and each way of quitting; and a
+    # reconnected feed (--retry-tcp) that stays quiet or goes on, then the same
+    for kind in range(4):
+        for q in range(4):
+            out.append(dict(base, quit=q, steps=[["feed", 2, 1], ["flood", kind], ["key", 2], ["key", 7], ["resize", 3, 4], ["key", 0], ["mouse", 3, 30, 15]]))
+    for b in range(4):
+        for q in range(4):
+            out.append(dict(base, flags=[7], quit=q, steps=[["feed", 2, 1], ["bounce", b], ["key", 2], ["key", 7], ["resize", 3, 4], ["key", 0], ["bounce", b], ["key", 1]]))
     # every listed kind of line that is not a frame, on every tab, between frames
     for tab in range(5):
         out.append(dict(base, steps=[["feed", 2, 1], ["key", tab]] + [st for k in range(len(NOISE)) for st in (["noise", k], ["feed", 2, 1])] + [["key", 2]]))
@@ -348,6 +388,8 @@ def worker(args):
         st.tuples(st.just("server_drop"), st.integers(0, 1)),
         st.tuples(st.just("crowd"), st.integers(0, 2)),
         st.tuples(st.just("noise"), st.integers(0, len(NOISE) - 1)),
+        st.tuples(st.just("flood"), st.integers(0, 3)),
+        st.tuples(st.just("bounce"), st.integers(0, 3)),
         # several aircraft in one coverage cell, then each tab in turn
         st.sampled_from([("feed_tab", 3, 2, 1), ("feed_tab", 2, 2, 0), ("feed_tab", 4, 2, 2), ("feed_tab", 2, 1, 1), ("feed_tab", 5, 2, 3), ("feed_tab", 3, 3, 3), ("feed_tab", 2, 3, 3), ("feed_tab", 4, 3, 0)]),
     )
